@@ -96,6 +96,13 @@ def unique_above_threshold_loop(ctx, f, is_weight, is_threshold):
                 elif v[0] == "bin" and v[1] == "Add" and ("const", 1) in (v[2], v[3]) and any(x[0] == "var" and x[1] == l for x in (v[2], v[3])):
                     counters.setdefault(l, {"init": [], "inc": []})["inc"].append(bi)
     counters = {l: c for l, c in counters.items() if c["init"] and c["inc"]}
+    if not counters:
+        # one candidate cell, assigned in the loop, no early return and no counter: if a qualifying entry overwrites an
+        # already remembered one, two qualifying entries yield Some(last) instead of None
+        W0 = Walker(ctx, f, [Atom("candidate", "opt", lambda t: t[0] == "var" and t[1] == cl, ["None", "Some"]), Atom("cmp(weight,threshold)", "cmp", m, ["<", "=", ">"])])
+        names, tab0 = W0.table({"set": somes}, start=head)
+        if len(set(map(frozenset, tab0.values()))) > 1 and "set" in tab0.get(("Some", ">"), set()) and not tab0.get(("Some", "<")) and not tab0.get(("None", "<")):
+            return "wrong", "a second entry reaching the threshold overwrites the remembered one (no early `return None`, no count): with two qualifying entries the result is Some instead of None"
     if len(counters) != 1 or not after:
         return "unknown", "neither an early `return None` in the loop nor a counter of qualifying entries"
     (cn, cc), = counters.items()
